@@ -169,6 +169,7 @@ class Engine:
         self.used_contracts = set()
         self.inlined = set()
         self.perm_registry = []
+        self.sort_registry = []
         self.rules_used = set()
         self.concrete = False  # differential self-test mode: concrete inputs, loops unrolled, callees inlined
         self.definitional = {}
@@ -282,6 +283,13 @@ class Engine:
                 st.assume(f)
             c.side.clear()
         self.pre_pc = list(st.pc)
+        if K.value is not None and K.ensures is not None:
+            v0 = K.value(c, *params.values())
+            goal0 = K.ensures(c, *params.values(), v0)
+            self.obls_pending_value = (State(dict(st.env), list(st.pc) + list(c.side)), goal0)
+            c.side.clear()
+        else:
+            self.obls_pending_value = None
         # bind the function's own parameters
         fparams = list(F.params)
         if F.kind == "classmethod":
@@ -306,6 +314,10 @@ class Engine:
             else:
                 st.env["__out__"] = ListV(0, lambda i: IntV(0))
         start = len(self.obls)
+        if self.obls_pending_value is not None:
+            s_v, g_v = self.obls_pending_value
+            for j, conj in enumerate(_conjuncts(B(g_v))):
+                self.emit("value-consistent", s_v, conj, f".{j}")
         outcomes = self.exec_block(F.body, st)
         for kind, s, val in outcomes:
             if kind in ("fall", "return"):
@@ -387,11 +399,15 @@ class Engine:
         # Seed the e-graph: E-matching can only instantiate the permutation axioms
         # (patterns F(i) / G(v)) at terms that exist.  mark is a fresh uninterpreted predicate, so
         # asserting mark(t) constrains nothing (conservative) but makes the terms F(c), G(c) available.
-        if consts and self.perm_registry:
+        if consts and (self.perm_registry or self.sort_registry):
             mark = fresh_fun("mark", z3.IntSort(), z3.BoolSort())
             for cst in consts:
                 for F_, G_, n_ in self.perm_registry:
                     for term in (cst, n_ - 1 - cst):
+                        hyps.append(mark(F_(term)))
+                        hyps.append(mark(G_(term)))
+                for F_, G_, n_ in self.sort_registry:  # sigma / tau of sorted(...): neighbours too (off-by-one shifts)
+                    for term in (cst, cst - 1, cst + 1):
                         hyps.append(mark(F_(term)))
                         hyps.append(mark(G_(term)))
         sizes = [n_ for (_f, _g, n_) in self.perm_registry] + [v.t for v in getattr(self, "params", {}).values() if isinstance(v, IntV)]
@@ -425,6 +441,11 @@ class Engine:
                 body = B(Pf(IntV(j)))
                 hy.assume(z3.ForAll([j], z3.Implies(z3.And(j >= lo_t, j <= hi_t), body)))
         goal = K.ensures(c, *self.params.values(), val)
+        el = getattr(K.cls, "ensures_locals", None)
+        if el is not None:
+            # postcondition that may mention the function's locals at the return point (they act as
+            # ghost witnesses, e.g. the sorted index list); a renamed local makes it undecided
+            goal = z3.And(B(goal), B(el(c, _NS(dict(self.params, **dict(st.env, __params__=self.params))), val)))
         for f in c.side:
             hy.assume(f)
         for j, conj in enumerate(_conjuncts(B(goal))):
@@ -463,7 +484,8 @@ class Engine:
         """Returns a list of (kind, state, value); kind in fall/return/break/continue/raise."""
         states = [st]
         finished = []
-        for node in stmts:
+        hook = getattr(self.contract.cls, "after_stmt", None) if (self.contract is not None and self.func is not None and stmts is getattr(self.func, "body", None)) else None
+        for idx_, node in enumerate(stmts):
             nxt = []
             for s in states:
                 for kind, s2, val in self.exec_stmt(node, s):
@@ -472,6 +494,16 @@ class Engine:
                     else:
                         finished.append((kind, s2, val))
             states = nxt
+            if hook is not None and not self.concrete:
+                # intermediate lemma of the contract at this program point: proved here, available afterwards
+                c_h = dsl.SymCtx(self)
+                for s in states:
+                    f = hook(c_h, _NS(dict(self.params, **dict(s.env, __params__=self.params))), idx_)
+                    if f is None:
+                        continue
+                    for j, conj in enumerate(_conjuncts(B(f))):
+                        self.emit(f"lemma@stmt#{idx_}", s, conj, f".{j}")
+                    s.assume(f)
             if len(states) + len(finished) > 400:
                 raise Unsupported("path explosion (> 400 paths)")
             if not states:
@@ -1397,7 +1429,52 @@ class Engine:
         return out
 
     def nested_comprehension(self, elt, gens, st, kind):
-        raise Unsupported("comprehension with several for-clauses")
+        """Several for-clauses: only the *collection of values* is modelled (BagV over the product
+        of the index domains) - enough for set(...) / frozenset(...) / any / all consumers."""
+        env0 = {k: (v.copy() if isinstance(v, ListV) else v) for k, v in st.env.items()}
+        pc0 = list(st.pc)
+        eng = self
+        nv = len(gens)
+
+        def bind(xs, emit_obligations):
+            s2 = State(dict(env0), list(pc0))
+            guards = []
+            mark = len(eng.obls)
+            for k, g in enumerate(gens):
+                src = eng.ev(g.iter, s2)
+                if isinstance(src, (SetV, BagV, TupV)):
+                    raise Unsupported("nested comprehension over a non-sequence")
+                seq = eng.as_seq(src, s2)
+                x = xs[k]
+                if seq.kind == "range" and "lo" in seq.meta:
+                    dom = z3.And(x >= seq.meta["lo"], x < seq.meta["hi"])
+                    val = IntV(x)
+                else:
+                    dom = z3.And(x >= 0, x < seq.n)
+                    val = seq.at(x)
+                guards.append(dom)
+                s2.pc.append(dom)
+                eng.assign(g.target, val, s2)
+                for cnd in g.ifs:
+                    t = eng.truth(eng.ev(cnd, s2), s2)
+                    guards.append(t)
+                    s2.pc.append(t)
+            v = eng.ev(elt, s2)
+            if not emit_obligations:
+                del eng.obls[mark:]
+            return z3.And(guards), v
+
+        probe = [fresh("nc") for _ in range(nv)]
+        bind(probe, True)  # obligations for arbitrary indices, once
+
+        def dom_contains(t):
+            xs = [Z(t)] if nv == 1 else [Z(u) for u in t]
+            return bind(xs, False)[0]
+
+        def eltf(xs):
+            return bind(xs, False)[1]
+
+        return BagV(SetV(dom_contains, nv), nv, eltf)
 
     def to_set(self, v, st, arity=None):
         if isinstance(v, SetV):
@@ -1578,6 +1655,15 @@ class Engine:
                 return ("tup", tuple(_ident(v) for v in a.items))
             return ("py", repr(a))
 
+        if K.value is not None:
+            # functional contract: the callee's result IS this expression of the arguments (checked
+            # against `ensures` by the obligation value-consistent of the callee); usable under binders
+            out = K.value(c, *vals)
+            if st is not None:
+                for f in c.side:
+                    st.assume(f)
+                c.side.clear()
+            return out if isinstance(out, V) else (BoolV(out) if isinstance(out, bool) else IntV(out))
         mkey = (name,) + tuple(_ident(v) for v in vals)
         if mkey in self.call_memo:
             res, facts = self.call_memo[mkey]
